@@ -8,15 +8,15 @@ open Rx Rx.Gen.TakeWhile
 def absTakeWhile (g : TakeWhileObserver) : St1 := .takeWhile g.callback g.inclusive g.observer.isSome
 
 theorem tie_TakeWhile_next (g : TakeWhileObserver) (v : Val) :
-    (TakeWhileObserver.next g v).map (fun r => (absTakeWhile r.1, r.2)) = some (St1.onNext (absTakeWhile g) v) := by
+    (TakeWhileObserver.next g v).map (fun r => (absTakeWhile r.1, r.2)) = some (Rs.lift (St1.onNext (absTakeWhile g) v)) := by
   rcases g with ⟨_ | _, _, _⟩ <;> rs_tie [TakeWhileObserver.next, absTakeWhile, St1.onNext]
 
 theorem tie_TakeWhile_error (g : TakeWhileObserver) (e : Err) :
-    (TakeWhileObserver.error g e).map (fun r => r.2) = some (St1.onError' (absTakeWhile g) e).2 := by
+    (TakeWhileObserver.error g e).map (fun r => r.2) = some ((St1.onError' (absTakeWhile g) e).2.map Rs.Ev.n) := by
   rcases g with ⟨_ | _, _, _⟩ <;> rs_tie [TakeWhileObserver.error, absTakeWhile, St1.onError']
 
 theorem tie_TakeWhile_complete (g : TakeWhileObserver) :
-    (TakeWhileObserver.complete g).map (fun r => r.2) = some (St1.onComplete' (absTakeWhile g)).2 := by
+    (TakeWhileObserver.complete g).map (fun r => r.2) = some ((St1.onComplete' (absTakeWhile g)).2.map Rs.Ev.n) := by
   rcases g with ⟨_ | _, _, _⟩ <;> rs_tie [TakeWhileObserver.complete, absTakeWhile, St1.onComplete']
 
 
